@@ -4,6 +4,7 @@ import (
 	"go/ast"
 	"go/constant"
 	"go/types"
+	"path/filepath"
 	"strings"
 
 	"verif/tools/internal/core"
@@ -37,6 +38,15 @@ func (c *Ctx) LoadFC(dir string) *FC {
 	for _, k := range []string{"MapL", "MapR", "PairL", "PairR"} {
 		if f, ok := prog.ByName[k]; ok && f.Generated {
 			n.Inline[f.Key] = f
+		}
+	}
+	// helpers added since the pins were reviewed are inlined, so that every rule reading a normal form sees through
+	// an extracted helper (the most common behaviour-preserving refactoring); see baseline_funcs.go
+	if base, ok := baselineFuncs[filepath.Base(m.Dir)]; ok {
+		for _, g := range prog.Funcs {
+			if g.Generated && !base[g.Name] {
+				n.Inline[g.Key] = g
+			}
 		}
 	}
 	gen, opq := 0, 0
